@@ -2,7 +2,7 @@
    [vcmp] is the component-wise, lexicographic comparison the library derives for nested values; [isort] the reference
    stable sort the interpreter's sort / order-statistic functions are compared with. *)
 From Coq Require Import List ZArith NArith Bool Permutation Sorted.
-From Xr Require Import Ord.Derived Ord.DerivedProofs.
+From Xr Require Import Ord.Derived Ord.DerivedProofs Ord.Pad.
 Import ListNotations.
 
 Theorem C19_cmp_consistent_with_eq : forall a b, vcmp a b = Eq <-> a = b.
@@ -26,6 +26,21 @@ Theorem C19_sort_is_stable : forall (A : Type) (le : A -> A -> bool),
   forall l x, filter (equiv le x) (isort le l) = filter (equiv le x) l.
 Proof. exact @isort_stable. Qed.
 
+(* the padding rule of the format-specifier grammar: exactly as wide as asked and never truncated; only fill characters
+   are added, sign and body keep their order; a text that fills the width is unchanged *)
+Theorem C19_pad_length : forall fill al width sign body,
+  length (pad fill al width sign body) = Nat.max width (length sign + length body).
+Proof. exact pad_length. Qed.
+
+Theorem C19_pad_shape : forall fill al width sign body,
+  exists a b c, pad fill al width sign body = repeat fill a ++ sign ++ repeat fill b ++ body ++ repeat fill c /\
+                a + b + c = width - (length sign + length body).
+Proof. exact pad_shape. Qed.
+
+Theorem C19_pad_noop : forall fill al width sign body,
+  width <= length sign + length body -> pad fill al width sign body = sign ++ body.
+Proof. exact pad_noop. Qed.
+
 Example C19_instances :
   vcmp (VQ (VCons (VI 1) (VCons (VI 2) VNil))) (VQ (VCons (VI 1) (VCons (VI 2) (VCons (VI 3) VNil)))) = Lt /\
   vcmp (VT (VCons (VI 1) (VCons (VS [97%N]) VNil))) (VT (VCons (VI 1) (VCons (VS [98%N]) VNil))) = Lt /\
@@ -38,4 +53,7 @@ Print Assumptions C19_cmp_transitive.
 Print Assumptions C19_sort_is_permutation.
 Print Assumptions C19_sort_is_ordered.
 Print Assumptions C19_sort_is_stable.
+Print Assumptions C19_pad_length.
+Print Assumptions C19_pad_shape.
+Print Assumptions C19_pad_noop.
 Print Assumptions C19_instances.
